@@ -36,9 +36,14 @@ class HandlerTable:
             raise AnalysisError("registry._locations does not fold to a dict")
         self.locations = loc
         self.handlers = {}
+        self.missing = {}   # registry names whose module does not bind them (positive defect, reported by C17.a)
         for name, path in sorted(loc.items()):
             modname, _, attr = path.partition(":")
-            self.handlers[name] = self._resolve(name, modname, attr or name)
+            h = self._resolve(name, modname, attr or name)
+            if h is None:
+                self.missing[name] = path
+            else:
+                self.handlers[name] = h
 
     def __iter__(self):
         return iter(self.handlers.values())
@@ -50,6 +55,8 @@ class HandlerTable:
         m = self.model
         u = m.units.get(modname)
         if u is None:
+            if modname.startswith(("passlib.", "libpass.")):
+                return None
             raise AnalysisError(f"registry: module {modname} for {name} not in tree")
         if attr in u.classes:
             return Handler(name, "class", modname, cref=(modname, attr), node=u.classes[attr])
@@ -67,7 +74,7 @@ class HandlerTable:
         h = self._ldap_loop(name, u)
         if h is not None:
             return h
-        raise AnalysisError(f"registry: {name} not found in {modname}")
+        return None
 
     def _wrapper(self, name, u, call):
         m = self.model
